@@ -39,3 +39,29 @@ Qed.
 Check C13_torsion_point_on_curve : forall (PR : PrimeR) (ND : NonSquareD) asg point n,
   block_sat (torsion_rows point n) asg -> on_curve (asg (fst point), asg (snd point)).
 Print Assumptions C13_torsion_point_on_curve.
+
+(* converse: an on-curve Q with point = [8]Q and honest intermediate values satisfies every row *)
+Theorem C13_torsion_complete : forall (PR : PrimeR) (ND : NonSquareD) asg point n,
+  let Q := (asg n, asg (S (n))) in
+  let Q2 := (asg (S (S (S (S (S (S (n))))))), asg (S (S (S (S (S (S (S (n))))))))) in let Q4 := (asg (S (S (S (S (S (S (S (S (S (n)))))))))), asg (S (S (S (S (S (S (S (S (S (S (n)))))))))))) in
+  let Q8 := (asg (S (S (S (S (S (S (S (S (S (S (S (S (n))))))))))))), asg (S (S (S (S (S (S (S (S (S (S (S (S (S (n))))))))))))))) in
+  on_curve Q ->
+  asg (S (S (n))) = asg n * asg n -> asg (S (S (S (n)))) = asg (S (n)) * asg (S (n)) -> asg (S (S (S (S (n))))) = asg (S (S (n))) * asg (S (S (S (n)))) ->
+  asg (S (S (S (S (S (n)))))) = fst Q * snd Q -> Q2 = ed_add Q Q ->
+  asg (S (S (S (S (S (S (S (S (n))))))))) = fst Q2 * snd Q2 -> Q4 = ed_add Q2 Q2 ->
+  asg (S (S (S (S (S (S (S (S (S (S (S (n)))))))))))) = fst Q4 * snd Q4 -> Q8 = ed_add Q4 Q4 ->
+  (asg (fst point), asg (snd point)) = Q8 ->
+  block_sat (torsion_rows point n) asg.
+Proof. exact @torsion_complete. Qed.
+Check C13_torsion_complete : forall (PR : PrimeR) (ND : NonSquareD) asg point n,
+  let Q := (asg n, asg (S (n))) in
+  let Q2 := (asg (S (S (S (S (S (S (n))))))), asg (S (S (S (S (S (S (S (n))))))))) in let Q4 := (asg (S (S (S (S (S (S (S (S (S (n)))))))))), asg (S (S (S (S (S (S (S (S (S (S (n)))))))))))) in
+  let Q8 := (asg (S (S (S (S (S (S (S (S (S (S (S (S (n))))))))))))), asg (S (S (S (S (S (S (S (S (S (S (S (S (S (n))))))))))))))) in
+  on_curve Q ->
+  asg (S (S (n))) = asg n * asg n -> asg (S (S (S (n)))) = asg (S (n)) * asg (S (n)) -> asg (S (S (S (S (n))))) = asg (S (S (n))) * asg (S (S (S (n)))) ->
+  asg (S (S (S (S (S (n)))))) = fst Q * snd Q -> Q2 = ed_add Q Q ->
+  asg (S (S (S (S (S (S (S (S (n))))))))) = fst Q2 * snd Q2 -> Q4 = ed_add Q2 Q2 ->
+  asg (S (S (S (S (S (S (S (S (S (S (S (n)))))))))))) = fst Q4 * snd Q4 -> Q8 = ed_add Q4 Q4 ->
+  (asg (fst point), asg (snd point)) = Q8 ->
+  block_sat (torsion_rows point n) asg.
+Print Assumptions C13_torsion_complete.
